@@ -224,6 +224,19 @@ def oracle(chk: C.Check, r, thorough: bool) -> tuple[int, int, list]:
         ("{% extends 'b2' %}{% block c %}{% render 'q' %}{% macro f %}<{{ y }}{{ i }}>{% endmacro %}{% call f %}{% endblock %}",
          {"b2": "{% assign y = 'BASE' %}{% for i in (1..1) %}{% block c %}{% endblock %}{% endfor %}", "q": "[{{ y }}{{ i }}]"},
          ("T", "[]<>")),
+        # render ... for: every item gets an isolated context of its own (fixed in /repo 710b4fc)
+        ("{% render 'q' for (1..3) as y %}", {"q": "[{{ seen }}{{ c }}]{% assign seen = y %}{% increment c %}{% capture k %}{{ y }}{% endcapture %}"},
+         ("T", "[]0[]0[]0")),
+        ("{% assign xs = 'a,b' | split: ',' %}{% render 'q' for xs as item %}", {"q": "{% assign item = item | upcase %}({{ item }})"}, ("T", "(A)(B)")),
+        ("{% render 'q' for (1..2) as y %}", {"q": "{% cycle 'a', 'b' %}{% for i in (1..2) offset: continue %}{{ i }}{% endfor %}"}, ("T", "a12a12")),
+        # a macro may call another macro or itself (fixed in /repo 6700b3b); what it defines, assigns or counts
+        # stays inside, also at the second level (fixed in /repo a2db2e5)
+        ("{% macro f %}{% macro g %}G{% endmacro %}F{% call g %}{% assign v = 1 %}{% increment c %}{% endmacro %}{% call f %}|{% call g %}|{{ v }}{{ c }}",
+         {}, ("T", "FG0||")),
+        ("{% macro r, n %}{{ n }}{% if n > 0 %}{% assign m = n | minus: 1 %}{% call r, m %}{% endif %}{% endmacro %}{% assign m = 'outer' %}{% call r, 2 %}{{ m }}",
+         {}, ("T", "210outer")),
+        ("{% assign y = 'L' %}{% macro a %}[{{ y }}{{ p }}]{% endmacro %}{% macro b, p %}{% assign y = 'B' %}{% call a %}{% endmacro %}{% call b, 'P' %}",
+         {}, ("T", "[]")),
     ]
     for src, ld, want in fixed:
         got = render(src, ld)
